@@ -9,11 +9,13 @@ CONSTANTS
   SelLen = 6
   SimLevel = 1
   LabelRefLen = 0
+  FormLevel = 1
 INVARIANT InvKmers
 INVARIANT InvMask
 INVARIANT InvTable
 INVARIANT InvSimilar
 INVARIANT InvSelTab
+INVARIANT InvForms
 INVARIANT InvMini
 INVARIANT InvSelect
 CHECK_DEADLOCK FALSE
